@@ -181,3 +181,63 @@ def _mutation_of(n, aliases):
             if k.arg == 'out' and isinstance(k.value, ast.Name) and k.value.id in aliases:
                 return k.value.id, 'out= argument'
     return None
+
+
+# ------------------------------------------------------------------------------------------------ O2
+RULE_O2 = ('O2: a cache-decorated function never returns an instance (or a container of instances) of a numqi class whose '
+           'methods mutate the instance (e.g. numqi.sim.Circuit, whose gate methods append to gate_index_list): every caller '
+           'would share one mutable builder object, so one caller\'s appended/shifted gates silently change what the next '
+           'caller receives.  (numpy arrays are covered by O1: nothing in the package mutates them.)')
+
+
+def _class_has_mutators(proj, ci):
+    from .typestate import class_functions, MUTATING_METHODS, _self_attr
+    for name, fn, selfname, how, mod in class_functions(proj, ci):
+        if name == '__init__':
+            continue
+        for n in ast.walk(fn):
+            if isinstance(n, ast.Call) and isinstance(n.func, ast.Attribute) and n.func.attr in MUTATING_METHODS \
+                    and _self_attr(n.func.value, selfname):
+                return f'{name} ({how})'
+            if isinstance(n, (ast.Assign, ast.AugAssign)):
+                for t in (n.targets if isinstance(n, ast.Assign) else [n.target]):
+                    if isinstance(t, ast.Subscript) and _self_attr(t.value, selfname):
+                        return f'{name} ({how})'
+    return None
+
+
+def o2(proj, rep):
+    rep.rule('O2', RULE_O2)
+    cached = cached_functions(proj)
+    n = 0
+    for q in sorted(cached):
+        fi = proj.funcs[q]
+        m = fi.module
+        n += 1
+        hit = None
+        names = set()
+        for r in return_exprs(fi.node):
+            for x in ast.walk(r):
+                if isinstance(x, ast.Name):
+                    names.add(x.id)
+        exprs = list(return_exprs(fi.node))
+        for nm in names:
+            for v, st, path in assignments(fi.node).get(nm, []):
+                if v is not None and path in (None,):
+                    exprs.append(v)
+        for e in exprs:
+            for c in ast.walk(e):
+                if isinstance(c, ast.Call):
+                    r = resolve_callee(proj, m, c)
+                    if r.kind == 'class':
+                        why = _class_has_mutators(proj, r.node)
+                        if why:
+                            hit = (c, r.qual, why)
+        if hit:
+            c, cq, why = hit
+            rep.violation('O2', q, f'cached ({cached[q]}) function returns a `{cq}` object, a mutable builder (its method {why} mutates it): '
+                          f'all callers share one instance', m, c)
+        else:
+            rep.ok('O2', q, 'returns no mutable numqi builder object', m, fi.node, text=f'{q} returns')
+    rep.count('O2.cached_functions', n)
+    return n
